@@ -85,6 +85,13 @@ CLAIMED = {
         "Numeric window evolution is declined; CUBIC's interpolation formulas and `= self._W_est` are listed in the evidence as not proved rather than claimed.",
         "DESIGN.md#c08",
     ),
+    "C09": (
+        "other",
+        "writer enumeration and guard extraction for the close deadline and the close event, abstract reading of get_timer (result only lowered to non-None values), CFG post-dominance (deadline cleared only with TERMINATED; closing branch clears its flag on every path), call-graph climb from every event-queuing function to the public methods that can reach it, constant folding of the closing-period coefficient and END_STATES",
+        "Decides on all paths that a connection which is not TERMINATED has a non-None deadline from connect() / its first datagram onwards (writers and their guards), that the per-packet re-arming cannot overwrite a closing/draining deadline, that the termination event has a single producer with two guarded callers, that receive_datagram / datagrams_to_send are inert in the end states and no event can be queued from any other public entry point, and that the closing period is 3 x PTO.",
+        "Timing under schedules is declined; API misuse after termination (calling handle_timer with a None deadline) is an assumption.",
+        "DESIGN.md#c09",
+    ),
 }
 
 NOT_APPLICABLE = {
